@@ -1970,7 +1970,9 @@ class Type_Declaration_StmtBase(StmtBase):
                 paren = re.match(r"\s*[a-z]+\s*\(", line, re.I)
                 if paren:
                     offset = max(line.find(")", paren.end()), 0)
-                m = re.search(r"\s[a-z_]", line[offset:], re.I)
+                # No white space is needed between the closing parenthesis of
+                # the type-spec and the first entity ('integer(4)x').
+                m = re.search(r"(\s|(?<=\)))[a-z_]", line[offset:], re.I)
                 if m is None:
                     return
                 i = m.start() + offset
